@@ -152,7 +152,7 @@ func (seg *Segment) IsAmbiguous(s2 *Segment) bool {
 }
 
 func (seg *Segment) AmbiguousLen() int16 {
-	return seg.ambiguousLength + int16(len(seg.Name))
+	return int16(len(seg.Value)) // 即 {name:rule}suffix 的长度，NewSegment 保证了不会溢出。
 }
 
 // Similarity 与 s1 的相似度，-1 表示完全相同，0 表示完全不同，
